@@ -891,6 +891,8 @@ def choose_paths(g, maxlen, budget, rng):
     trajs = []
 
     def dfs(u, nodes, labels):
+        if len(trajs) >= 200000:
+            return
         if len(nodes) - 1 >= 1:
             trajs.append((tuple(nodes), list(labels)))
         if len(nodes) - 1 >= maxlen:
@@ -903,6 +905,8 @@ def choose_paths(g, maxlen, budget, rng):
         for v in sorted(succ):
             dfs(v, nodes + [v], labels + [succ[v]])
 
+    import sys as _sys
+    _sys.setrecursionlimit(max(_sys.getrecursionlimit(), 10000))
     dfs(g.init, [g.init], [])
     rng.shuffle(trajs)
     n_traj = len(trajs)
@@ -978,6 +982,28 @@ def make_event(eid, kind, mode, steps, keep, refvals=None):
     return ev
 
 REF_OVERRIDE = {("Assembly", "get_k0_conn_arg"): ["_panels_k0", "get_k0_conn_arg"]}
+TOUCH = {
+    "c": {"calc_k0_c", "calc_kG0_c", "calc_kT_c", "calc_kT", "calc_fint", "plot", "uvw_stiffener", "uvw", "strain",
+          "stress", "uvw_skin"},
+    "xy": {"uvw", "strain", "stress", "uvw_skin"}}
+
+
+def _touch_table(kind):
+    """method -> (None, caller array names) as the laboratory passes them (static copy of methods(kind),
+    kept here so that the parent process does not import compmech)"""
+    cls = "Panel" if kind in ("Plate", "CPanel", "KPanel") else "Assembly" if kind == "Assembly" else \
+        "ConeCyl" if kind in ("Cyl", "Cone") else "Bay"
+    out = {}
+    for m in sorted(TOUCH["c"] | {"calc_k0", "calc_kG0", "calc_kM", "calc_kA", "calc_cA", "calc_fext", "lb", "lb_dense",
+                                  "freq", "freq_dense", "static", "static_NL", "get_k0_conn", "get_k0_conn_arg",
+                                  "an_lb", "an_freq", "an_static"}):
+        t = []
+        if m in TOUCH["c"]:
+            t.append("c")
+        if m in TOUCH["xy"] and cls != "Assembly":
+            t += ["xs", "ts"] if cls == "ConeCyl" else ["xs", "ys"]
+        out[m] = (None, tuple(t))
+    return out
 
 
 def random_walks(g, maxlen, count, rng):
@@ -1151,12 +1177,21 @@ def _run(rep, rng, tier, seed, build, mutant, kinds, maxlen, scratch):
     plan, stats = {}, []
     for kind in kinds:
         g = graphs[kind]
-        paths, st = choose_paths(g, maxlen, 100000, rng)
+        budget = 100000 if quick else 1200
+        paths, st = choose_paths(g, maxlen, budget, rng)
         variants = 0 if quick else 4
         extra = []
         for _ in range(variants):
-            more, _ = choose_paths(g, maxlen, 100000, rng)
-            extra += more
+            more, _ = choose_paths(g, maxlen, budget // 2, rng)
+            extra += more[st["cover_paths"]:]
+        extra = extra[:budget // 2]
+        # the harness hands each call exactly the caller arrays the specification lists (Touches)
+        for m, (_, touch) in _touch_table(kind).items():
+            want = set(g.touches.get(m, []))
+            have = {"K", "M"} if m in ("an_lb", "an_freq", "an_static") else set(touch)
+            if m in g.methods and want != have:
+                rep.machinery("Touches(%s,%s) in Lifecycle.tla is %s but the harness passes %s"
+                              % (kind, m, sorted(want), sorted(have)))
         walks = random_walks(g, maxlen, 20 if quick else 300, rng)
         seen = set(map(tuple, paths))
         for p in extra + walks:
